@@ -67,9 +67,15 @@ static void one(Out& out, const std::vector<std::vector<long long>>& keys, long 
     std::vector<long long> adv; for (size_t i = 0; i < k; ++i) adv.push_back(seqs[i].first - begin0[i]);
     std::string pt = "[";
     for (size_t i = 0; i < res.problems.size() && i < 3; ++i) pt += std::string(i ? "," : "") + "\"" + res.problems[i] + "\"";
+    // who wrote which output position (shim thread numbers: thread iam of the merge is shim thread iam + 1); -1 = nobody or more than one
+    std::vector<long long> writers;
+    for (long long n = 0; n < L; ++n) { auto it = g_writes.find(&target[n]); writers.push_back(it != g_writes.end() && it->second.size() == 1 ? it->second[0] : -1); }
     Ev e("merge"); e.raw("seqs", sj + "]").num("len", L).boolean("stable", stable).raw("out", oj + "]").num("ret", nout).arr("adv", adv)
         .boolean("parallel", true).boolean("writes_ok", writes_ok).num("problems", (long long)res.problems.size() + (res.deadlock ? 1 : 0)).raw("problem_text", pt + "]")
         .num("mwmsa", mwmsa).num("threads", threads).num("oversampling", oversampling).num("mwma", mwma).num("front", front);
+#ifndef NO_VSCHED
+    e.arr("writers", writers);
+#endif
     e.emit(out);
 }
 
